@@ -386,6 +386,34 @@ func c20Cases(c *Ctx, n int) []jsCase {
 			gt((k+2)*period-1, "same parameters, last second of a step")
 			gt((k+2)*period, "same parameters, directly followed by the first second of the next step")
 		}
+		// (a') the same secret and instant with exactly one other argument changed - the period (multiples, divisors,
+		// +-1; at an instant where the steps of all of them begin in the same second), the digits, the hash - each
+		// followed by the base call again
+		{
+			ts := uint64(1+hrng.Intn(40000))*43200 + uint64(hrng.Intn(10))
+			call := func(ds2, as2 string, per uint64, note string) {
+				add(jsCase{Fn: "generateTOTP", Args: []jsArg{sArg(sec), nArg(float64(ts)), sArg(ds2), sArg(as2), nArg(float64(per))}, Want: ref.TOTP(key, int64(ts), per, restDigits(ds2), restAlgo(as2)), Note: note})
+			}
+			for _, q := range []uint64{period * 2, period * 3, period * 10, period / 2, period / 3, period + 1, period - 1, 30, 60, 1, 3600} {
+				if q >= 1 && q <= 3600 && q != period {
+					call(ds, as, period, "base call of a one-argument-changed history")
+					call(ds, as, q, "same arguments as the previous call but the period")
+				}
+			}
+			for _, ds2 := range []string{"6", "8", "10"} {
+				if ds2 != ds {
+					call(ds, as, period, "base call of a one-argument-changed history")
+					call(ds2, as, period, "same arguments as the previous call but the digits")
+				}
+			}
+			for _, as2 := range []string{"SHA1", "SHA256", "SHA512"} {
+				if as2 != as {
+					call(ds, as, period, "base call of a one-argument-changed history")
+					call(ds, as2, period, "same arguments as the previous call but the hash")
+				}
+			}
+			call(ds, as, period, "base call of a one-argument-changed history")
+		}
 		// (b)
 		offs := stepWalkOffsets(hrng, 120)
 		for _, off := range offs {
